@@ -209,6 +209,8 @@ inline RCP<const Basic> build(const Json &r, const Pool &pool, int depth = 0)
     if (op == "cdbl")
         return complex_double(r.size() > 1 ? r[1].as_double() : 0.0,
                               r.size() > 2 ? r[2].as_double() : 1.0);
+    if (op == "newconst") // a Constant object of its own, not the library's singleton
+        return constant(r.size() > 1 && !r[1].s.empty() ? r[1].s : std::string("pi"));
     if (op == "const") {
         std::string n = r.size() > 1 ? r[1].s : "pi";
         if (n == "pi")
@@ -421,7 +423,7 @@ inline Json rleaf(Rng &g, const Profile &p, size_t poolsize)
     }
     if (k == 10 && p.constants) {
         static const char *c[] = {"pi", "E", "EulerGamma", "Catalan", "GoldenRatio"};
-        r.push("const");
+        r.push(g.chance(1, 3) ? "newconst" : "const");
         r.push(c[g.below(5)]);
         return r;
     }
